@@ -27,6 +27,10 @@ var (
 	pBp   = u.F("pBp", "A", "B") // no error result: can only panic
 	dAp   = u.F("dAp", "A", "A")
 	pCobe = u.F("pCobe", "{B?}", "C,error")
+	// error result in a position other than the last
+	pAef = u.F("pAef", "", "error,A")
+	pBem = u.F("pBem", "A", "B,error,{B@n}")
+	dAef = u.F("dAef", "A", "error,A")
 )
 
 // failedValueMonitor: no value of a failed execution is ever delivered.
@@ -178,6 +182,7 @@ func c07Units(tier string) []Unit {
 		{"decorators", alpha{scopes: []int{0, 1}, ctors: []*uFunc{pA, pB}, decos: []*uFunc{dAe, dABe}, invokes: []*uFunc{iA, iB}}, []string{"dAe", "dABe"}, prefixChild},
 		{"group-decorator", alpha{scopes: []int{0, 1}, ctors: []*uFunc{fG1e, fG1}, decos: []*uFunc{dGe}, invokes: []*uFunc{iG, iGs}}, []string{"fG1e", "dGe"}, prefixChild},
 		{"deco-over-failing-ctor", alpha{scopes: []int{0, 1}, ctors: []*uFunc{pAe, pBe}, decos: []*uFunc{dAe}, invokes: []*uFunc{iA, iB}}, []string{"pAe", "dAe"}, prefixChild},
+		{"error-not-last", alpha{scopes: []int{0, 1}, ctors: []*uFunc{pAef, pBem}, decos: []*uFunc{dAef}, invokes: []*uFunc{iA, iB, iBn}}, []string{"pAef", "pBem", "dAef"}, prefixChild},
 		{"reentry-single", alpha{scopes: []int{0, 1}, ctors: []*uFunc{pA, pBe}, decos: []*uFunc{dABae}, invokes: []*uFunc{iA, iB}}, []string{"dABae", "pBe"}, prefixChild},
 		{"reentry-group", alpha{scopes: []int{0, 1}, ctors: []*uFunc{pA, fBgAe}, decos: []*uFunc{dGBAe}, invokes: []*uFunc{iA, iGB}}, []string{"dGBAe", "fBgAe"}, prefixChild},
 	}
@@ -340,6 +345,7 @@ func c13Units(tier string) []Unit {
 		{"decorators", alpha{scopes: []int{0, 1}, ctors: []*uFunc{pAe, pBe}, decos: []*uFunc{dAe, dABe}, invokes: []*uFunc{iAe, iBe}}, []string{"dAe", "dABe", "pAe"}, prefixChild},
 		{"group-decorator", alpha{scopes: []int{0, 1}, ctors: []*uFunc{fG1e, pCe}, decos: []*uFunc{dGe}, invokes: []*uFunc{iCe, iOe}}, []string{"dGe", "fG1e"}, prefixChild},
 		{"panic-only-functions", alpha{scopes: []int{0, 1}, ctors: []*uFunc{pA, pBp}, decos: []*uFunc{dAp}, invokes: []*uFunc{iA, iB}}, []string{"pBp", "dAp", "iA"}, prefixChild},
+		{"error-not-last", alpha{scopes: []int{0, 1}, ctors: []*uFunc{pAef, pBem}, decos: []*uFunc{dAef}, invokes: []*uFunc{iAe, iBe, iBn}}, []string{"pAef", "pBem", "dAef"}, prefixChild},
 		{"reentry-single", alpha{scopes: []int{0, 1}, ctors: []*uFunc{pA, pBe}, decos: []*uFunc{dABae}, invokes: []*uFunc{iAe, iBe}}, []string{"dABae", "pBe"}, prefixChild},
 		{"reentry-group", alpha{scopes: []int{0, 1}, ctors: []*uFunc{pA, fBgAe}, decos: []*uFunc{dGBAe}, invokes: []*uFunc{iAe, iGB}}, []string{"dGBAe", "fBgAe"}, prefixChild},
 	}
